@@ -88,6 +88,7 @@ type Store struct {
 	ufApps map[string][]*Term
 	tru    *Term
 	fls    *Term
+	ub     map[int]uint64 // memo of ubound (bounds.go)
 }
 
 type ufDecl struct {
@@ -451,6 +452,9 @@ func (s *Store) maxU(t *Term) (uint64, bool) {
 	if t.w > 64 || t.w == 0 {
 		return 0, false
 	}
+	if t.op != OpConst {
+		return s.ubound(t), true // interval reasoning, bounds.go
+	}
 	switch t.op {
 	case OpConst:
 		return t.c, true
@@ -571,6 +575,9 @@ func (s *Store) Bin(op Op, a, b *Term) *Term {
 		}
 		if b.op == OpConst && b.c == 0 {
 			return a
+		}
+		if optLinSum {
+			return s.linAdd(a, b) // sorted-chain normal form, linsum.go
 		}
 		// (x + c1) + c2
 		if b.op == OpConst && a.op == OpBvAdd && a.args[1].op == OpConst {
@@ -946,7 +953,7 @@ func (s *Store) Extract(a *Term, hi, lo uint16) *Term {
 		}
 	case OpBvAdd, OpBvSub, OpBvMul:
 		// low bits of modular arithmetic depend only on low bits of the operands
-		if lo == 0 {
+		if lo == 0 && !(optLinSum && a.op == OpBvAdd) { // linsum keeps one chain per sum
 			return s.Bin(a.op, s.Extract(a.args[0], hi, 0), s.Extract(a.args[1], hi, 0))
 		}
 	}
